@@ -446,8 +446,9 @@ Proof.
       { destruct d as [|f i0].
         - destruct (hook_call g2) as [[v|] gh] eqn:HC; inversion EF; subst; apply (hook_call_J _ _ _ HC J2).
         - destruct (IH _ _ _ _ _ _ EF J2) as [X _]; [intros; discriminate|exact X]. }
-      set (g4 := upd_run (pop_defer (defer_of (rn g)) (ef_defer (rn g))) g3) in *.
-      assert (J4 : J g4) by (apply (same_cnt_J g3); [apply upd_run_cnt; reflexivity|exact J3]).
+      set (g4 := upd_run (fun r => let r1 := pop_defer (defer_of (rn g)) (ef_defer (rn g)) r in
+                                  if fx then set_panicv (panicv (rn g)) (set_panic_fun (panic_fun (rn g)) r1) else r1) g3) in *.
+      assert (J4 : J g4) by (apply (same_cnt_J g3); [apply upd_run_cnt; destruct fx; reflexivity|exact J3]).
       assert (REST : forall pk' pk2' gp', go fuel P fx (TDefers fs ds' pk' pk2' gp') g4 = (o, g') ->
                 J g' /\ post2 (TDefers fs (d :: ds') pk pk2 gp) g o g').
       { intros pk' pk2' gp' HH. destruct (IH _ _ _ _ _ _ HH J4) as [J5 P5]; [intros; discriminate|]. split; [exact J5|exact P5]. }
